@@ -30,6 +30,14 @@ func NewRawHTTPResponder(writer io.Writer) *RawHTTPResponder {
 	}
 }
 
+// Tells the responder which request it is answering. A response to a HEAD request must be
+// written without a body (not even a chunked terminator), which http.Response.Write only
+// does when it knows the request method.
+func (c *RawHTTPResponder) ForRequest(req *http.Request) *RawHTTPResponder {
+	c.response.Request = req
+	return c
+}
+
 func (c *RawHTTPResponder) parseAndSetContentLength() error {
 	header := c.response.Header
 
